@@ -385,7 +385,7 @@ pub fn run(cx: &Ctx) {
         for &len in &LENS {
             let imp = imp.to_string();
             let max_ops = cx.by(40, 120);
-            cx.run_pt(&Algebra, cx.by(1200, 12000), w, move || history_strategy(imp.clone(), len, max_ops), "histories of 0..40 (thorough 120) operations over 4 histograms");
+            cx.run_pt(&Algebra, cx.by(1200, 40000), w, move || history_strategy(imp.clone(), len, max_ops), "histories of 0..40 (thorough 120) operations over 4 histograms");
         }
     }
 }
